@@ -30,7 +30,7 @@ def showPlan : Plan → String
   | .refuse .listen => "refuse(listen)"
   | .refuse .enableTls => "refuse(enableTls)"
   | .tls c h s =>
-    let m := match c.minProto with | some v => toString v | none => "-1"
+    let m := match c.minProto with | some v => toString v | none => "0"
     s!"tls(role={showRole c.role},verify={showVerify c.verify},min={m},trust={showTrust c.trust},cert={bit (c.certLoaded && c.keyLoaded)},host={h.getD "-"},sni={s.getD "-"})"
 
 def showVer (v : Option Int) : String :=
@@ -58,7 +58,7 @@ def parseCCert : String → Option (Option CertProps)
 /-- (speaks TLS when offered TLS, answers plaintext when offered plaintext) -/
 def parsePeer : String → Option (PeerKind × Bool)
   | "tls" => some (.tls, false) | "plain" => some (.plaintext, true) | "garbage" => some (.garbage, false)
-  | "badhello" => some (.garbage, false) | "dual" => some (.tls, true) | _ => none
+  | "badhello" => some (.garbage, false) | "dual" => some (.tls, true) | "plainread" => some (.plaintext, false) | _ => none
 def parseOwn : String → Option (Bool × Files)
   | "valid" => some (true, CertKind.valid.files) | "self" => some (true, CertKind.selfSigned.files)
   | "expired" => some (true, CertKind.expired.files) | "wrongname" => some (true, CertKind.wrongName.files)
@@ -100,7 +100,7 @@ def cliCell (verify trust scert ceil peer target min enabled defmode req : Strin
   | .plain => pure (line p true plainOk true none)
   | .refuse _ => pure (line p false false false none)
 
-def srvCell (verify trust own ccert ceil peer min enabled defmode req : String) : Option String := do
+def srvCell (verify trust own ccert ceil peer min enabled defmode req : String) (greet : Bool) : Option String := do
   let (haveCert, files) ← parseOwn own
   let cc ← parseCCert ccert
   let ce ← parseCeil ceil
@@ -119,7 +119,7 @@ def srvCell (verify trust own ccert ceil peer min enabled defmode req : String) 
   | .tls .. =>
     let o := serverOutcome Ossl.ref p configured .empty { kind := kind, cert := cc, ceil := ce }
     pure (line p o.isSome o.isSome false o)
-  | .plain => pure (line p true plainOk plainOk none)
+  | .plain => pure (line p true plainOk (plainOk || greet) none)
   | .refuse _ => pure (line p false false false none)
 
 def httpCell (verify ca sys scert url ceil peer : String) : Option String := do
@@ -155,12 +155,50 @@ def hsrvCell (require ca own ccert ceil peer : String) : Option String := do
   | .plain => pure (line p plainOk plainOk plainOk none)
   | .refuse _ => pure (line p false false false none)
 
-def step (_ : Unit) : List String → Unit × String
+/-- `hurl <scheme> <form> <verify> <peer>`: HttpClient request for `<scheme>://<authority>/…` against a peer that answers TLS with TLS
+and plaintext with plaintext -/
+def urlCell (scheme form verify peer : String) : Option String := do
+  let v ← parseBit verify
+  let (kind, _) ← parsePeer peer
+  let u ← (match form with
+    | "ipport" => some UrlHost.ipv4 | "noport" => some .ipv4 | "nameport" => some (.name theHost) | _ => none)
+  let port := fun (reached : Bool) => if form == "noport" then (if reached then toString (urlDefaultPort scheme) else "-") else "explicit"
+  match httpUrlPlan { verifyPeer := v, caFileSet := v } {} scheme u true with
+  | none => pure ("plan=rejected connected=0 appdata=0 cleartext=0 version=- port=" ++ (if form == "noport" then "-" else "explicit"))
+  | some p =>
+    match p with
+    | .tls .. =>
+      let o := clientOutcome Ossl.ref p (if v then .right else .empty) .empty { kind := kind, cert := CertKind.valid.props, ceil := 772 }
+      pure (line p o.isSome o.isSome false o ++ " port=" ++ port true)
+    | .plain => pure (line p true true true none ++ " port=" ++ port true)
+    | .refuse _ => pure (line p false false false none ++ " port=" ++ port false)
+
+/-- `hreuse <first> <second> <verify>`: one HttpClient, two requests to the same host:port, peer serves both schemes keep-alive -/
+def reuseCell (first second : String) : Option String := do
+  let f ← (match first with | "http" => some false | "https" => some true | _ => none)
+  let g ← (match second with | "http" => some false | "https" => some true | _ => none)
+  let run := cacheRun none [⟨f, false⟩, ⟨g, false⟩]
+  let conns := (run.filter (fun x => x.2.2)).length
+  let leak := run.any (fun x => x.1 && x.2.1 != Mode.client)
+  let secondOn := match run with
+    | [_, x] => if x.2.1 == Mode.client then "tls" else "plain"
+    | _ => "-"
+  pure s!"r1=200 r2=200 conns={conns} second_on={secondOn} secure_in_clear={bit leak}"
+
+def optOf (toks : List String) (k : String) : Option String :=
+  (toks.find? (fun t => t.startsWith (k ++ "="))).map (fun t => (t.drop (k.length + 1)).toString)
+
+def step (_ : Unit) (toks : List String) : Unit × String :=
+  let opts := toks.filter (fun t => t.contains '=')
+  let greet := optOf opts "greet" == some "1"
+  match toks.filter (fun t => !t.contains '=') with
   | ["certtable"] => ((), certTable)
   | ["cli", _api, verify, trust, scert, ceil, peer, target, min, _et, _batch, enabled, defmode, req] =>
     ((), (cliCell verify trust scert ceil peer target min enabled defmode req).getD "bad-op")
   | ["srv", verify, trust, own, ccert, ceil, peer, min, _et, _batch, enabled, defmode, req] =>
-    ((), (srvCell verify trust own ccert ceil peer min enabled defmode req).getD "bad-op")
+    ((), (srvCell verify trust own ccert ceil peer min enabled defmode req greet).getD "bad-op")
+  | ["hurl", scheme, form, verify, peer] => ((), (urlCell scheme form verify peer).getD "unmodelled")
+  | ["hreuse", first, second, _verify] => ((), (reuseCell first second).getD "bad-op")
   | ["http", verify, ca, sys, scert, url, ceil, peer] => ((), (httpCell verify ca sys scert url ceil peer).getD "bad-op")
   | ["hsrv", require, ca, own, ccert, ceil, peer] => ((), (hsrvCell require ca own ccert ceil peer).getD "bad-op")
   | ["fires"] => ((), "fires")
